@@ -107,6 +107,7 @@ type recvState struct {
 	haveHiEnter bool
 	hiEnter  int64
 	tainted  bool // sequence bookkeeping became ambiguous (overlapping presentations)
+	gappy    bool // presentations to this receiver were not a gap-free in-order sequence
 	withheld map[int64]bool
 	nWith    []int64 // sorted withheld exts
 	firstOut map[int64]uint16
@@ -468,6 +469,9 @@ func (w *mediaWorld) judge(rs *recvState, pr *presentation, after rtpconn.VerifL
 	inOrder := !rs.haveHi || ext == rs.hi+1
 	first := !rs.haveHi
 	newest := !rs.haveHi || ext > rs.hi
+	if !pr.fromNACK && !inOrder {
+		rs.gappy = true // loss, duplication, reordering or writer congestion
+	}
 	if pr.overlap {
 		c.Count("presentations.overlapping", 1)
 		rs.haveLast = false
@@ -707,7 +711,8 @@ func (w *mediaWorld) judgeBytes(rs *recvState, pr *presentation, after rtpconn.V
 		}
 		rs.framePID[src.Frame] = pidOut
 		// frames wholly withheld before this one (in-order delivery profiles only)
-		if w.p.MaxDisp == 0 && !pr.fromNACK && !pr.fromSeq && !rs.tainted {
+		// the consecutive-id clause is stated for in-order histories with whole-frame drops
+		if !rs.gappy && !pr.fromNACK && !pr.fromSeq && !rs.tainted {
 			n := 0
 			for fr := range rs.frameWith {
 				if fr < src.Frame && !rs.frameFwd[fr] {
